@@ -38,6 +38,9 @@ SIG_STALE = 'result-cache-keyed-by-sql-text:stale-after-storage-change'
 SIG_SHARED = 'result-cache-keyed-by-sql-text:shared-across-feeds'
 SIG_LAZY = 'lazy-origin-registered-once-per-process'
 SIG_UNUSED = 'lazy-table-without-used-column-not-registered'
+#: NOT a known finding: a read is served the rows an earlier read of a *different* statement returned (the result cache /
+#: the statement cache does not tell the two statements apart)
+SIG_ALIEN = 'read-returns-rows-of-another-statement'
 
 
 def tup(x):
@@ -223,6 +226,7 @@ def judge(stmt, db) -> dict:
     kinds = [k for _, k in g.out_columns(stmt)]
     limits = g.engine_limits(stmt)
     engines.load(db)
+    differing, admitted = [], []
     for engine in engines.cons:
         if engine == 'sqlite' and 'sqlite-nested-compound' in limits:
             continue
@@ -235,18 +239,26 @@ def judge(stmt, db) -> dict:
             continue
         rec['impl'][engine] = ('rows', rows)
         why = exp.admits(rows)
-        if why is not None:
-            sig = f'rows-differ:{g.shape(stmt)}'
-            what = f'{engine} returns rows other than the statement denotes ({why})'
-            if has_cross(stmt):
-                try:
-                    if cross_as_full(stmt, db).admits(rows) is None:
-                        sig = SIG_CROSS
-                        what = (f'{engine}: CROSS join over an empty and a non-empty side returns NULL-extended rows '
-                                f'({len(rows)} rows, {len(exp.rows()) if exp.deterministic else "?"} denoted)')
-                except g.Undefined:
-                    pass
-            rec['violations'].append((what, sig))
+        if why is None:
+            admitted.append(engine)
+            continue
+        sig = f'rows-differ:{g.shape(stmt)}'
+        what = f'{engine} returns rows other than the statement denotes ({why})'
+        if has_cross(stmt):
+            try:
+                if cross_as_full(stmt, db).admits(rows) is None:
+                    sig = SIG_CROSS
+                    what = (f'{engine}: CROSS join over an empty and a non-empty side returns NULL-extended rows '
+                            f'({len(rows)} rows, {len(exp.rows()) if exp.deterministic else "?"} denoted)')
+            except g.Undefined:
+                pass
+        differing.append((engine, what, sig))
+    if differing and admitted:
+        # the SAME parser output evaluates to the denoted rows on one engine and to something else on the other: the
+        # translation is right, the engines disagree (DESIGN.md section 5 C06 "Search": engine behaviour, not a violation)
+        rec['engine_disagreement'] = [(w, s_) for _, w, s_ in differing]
+    else:
+        rec['violations'].extend((w, s_) for _, w, s_ in differing)
     return rec
 
 
@@ -325,15 +337,25 @@ class C06(fw.Check):
             'random ones (depth <= 2 of nesting) x 5 random table contents each (0..6 rows, empty tables, NULLs): 600 cases '
             'quick / 30000 thorough; each is parsed by the real alchemy parser and run on SQLite and DuckDB; a case is '
             'distinct by (statement, content) and non-trivial when the denoted result is not empty or the statement joins / '
-            'nests / groups. reader level: histories of <= 5 ops {read feed, mutate storage, restart} over two alchemy feeds '
-            'on two SQLite files with equally named tables and two monolite feeds on CSV directories (28 quick / 800 '
-            'thorough, 10 hand-picked first); every segment between restarts runs in a freshly forked process.')
+            'nests / groups; LIMIT / OFFSET windows over a total order, also inside nested statements. reader level (64 quick '
+            '/ 1200 thorough histories, every segment between restarts in a freshly forked process, one ForML home per '
+            'history): 10 hand-picked histories of the known findings and their harmless twins, 17 hand-picked FAMILY '
+            'histories, then alternately (a) family histories: 2..4 statements that differ in exactly ONE place (a literal '
+            '- incl. values with equal Python hashes and strings differing in case / trailing blank -, an operator, an '
+            'aggregate, a join or set kind, a direction, a reference name, an alias, two swapped aliases of a nested '
+            'statement, a LIMIT / OFFSET window) read interleaved and repeatedly through ONE feed (alchemy on SQLite or '
+            'monolite on CSV) over unchanged storage, half of them across a restart that keeps the home directory, and (b) '
+            'free histories of <= 5 ops {read feed, mutate storage, restart} over two alchemy feeds on two SQLite files '
+            'with equally named tables and two monolite feeds on CSV directories.')
     TRUSTED = [
         'SQLAlchemy rendering of the select constructs, SQLite and DuckDB (the abstract SQL semantics `evalSql` is tied to '
         'them by the correspondence only)',
         'clause semantics shared by the Lean `denote` and `evalSql` (ForML.Model.SqlRel.runQuery / joinRows / setRows); '
         'they are checked against the engines and against the independent Python evaluator c06gen.denote',
         'pandas.read_sql / parquet round trip of the result cache (values are canonicalised by the expected kinds)',
+        'the result cache key: the model keys by the token sequence of the rendered statement with its literal values '
+        '(ForML.Model.SqlRender, injective by C06_cache_key_injective); that SQLAlchemy renders no less and that sha256 does '
+        'not collide is tied only through behaviour (which reads share an entry), not through the text',
         'reader level: a "fresh process" is a fork of a zygote that has the third-party libraries loaded but never imported '
         'forml; forml is imported in the child after FORML_HOME is set (c06_worker.py); feeds are driven through '
         'feed.producer(feed.sources, feed.features, **feed._readerkw) as io.Feed.load does',
@@ -363,7 +385,14 @@ class C06(fw.Check):
             victim = rng.choice(list(db))
             db[victim] = (db[victim][0], [])
             groups.append((stmt, dbs + [db]))
+        # LIMIT / OFFSET windows over a total order (each denotes exactly one result), also inside a nested statement
+        for nested in (False, True):
+            for stmt in g.limit_family(rng, nested):
+                groups.append((stmt, [g.gen_db(rng, 0.05) for _ in range(PER)]))
         while len(groups) * PER < n:
+            if rng.random() < 0.04:
+                groups.append((rng.choice(g.limit_family(rng, rng.random() < 0.5)), [g.gen_db(rng, 0.05) for _ in range(PER)]))
+                continue
             groups.append((gen.statement(2 if rng.random() < 0.2 else 1), [g.gen_db(rng) for _ in range(PER)]))
         return groups
 
@@ -433,6 +462,15 @@ class C06(fw.Check):
             lines.append(sexp.dumps(g.with_let(('run', srcs, g.short(rec['stmt']), g.db_sexp(rec['db'])))))
         answers = self.model(lines)
         skipped = collections.Counter()
+        disagreements = [rec for rec in records if rec.get('engine_disagreement')]
+        if len({rec['stmt'] for rec in disagreements}) > max(2, len({rec['stmt'] for rec in records}) // 1000):
+            # not a rare engine quirk: the parser output is evaluated differently by the engines as a rule - report it
+            for rec in disagreements:
+                rec['violations'].extend(rec['engine_disagreement'])
+        elif disagreements:
+            self.notes.append(f'parser level: on {len(disagreements)} case(s) one engine returns the denoted rows for the parser '
+                              f'output and the other does not (engine behaviour), e.g. {sexp.dumps(g.short(disagreements[0]["stmt"]))[:300]} '
+                              f'{[w for w, _ in disagreements[0]["engine_disagreement"]]}')
         for rec, line, ans in zip(records, lines, answers):
             stmt, db = rec['stmt'], rec['db']
             if 'skip' in rec:
@@ -488,19 +526,25 @@ class C06(fw.Check):
 
     # ---- reader level -------------------------------------------------------------------------------------------------
     def _histories(self, n: int) -> list:
+        """reader-level histories: the hand-picked ones, then alternately (a) reads of one-place *families* of
+        statements through one feed over unchanged storage — in one process and across restarts — and (b) free
+        histories {read any feed, mutate, restart}"""
         rng = self.rng
         gen = g.Gen6(rng, named_top=True, plain_groups=True)
-        out = list(HISTORY_CORPUS())
+        out = list(HISTORY_CORPUS()) + list(FAMILY_CORPUS())
+        k = 0
         while len(out) < n:
+            k += 1
+            if k % 2:
+                hist = self._family_history(gen)
+                if hist is not None:
+                    out.append(hist)
+                continue
             pool = []
             while len(pool) < rng.randint(1, 3):
-                stmt = gen.statement(1)
-                if 'sqlite-nested-compound' in g.engine_limits(stmt) or not lazy_ok(stmt):
-                    continue
-                if stmt[0] == 'query' and stmt[7] is not None:
-                    # a LIMIT that cuts through ties is not a function of the content (and would be cached): never cut
-                    stmt = stmt[:7] + (('rows', 100000, 0),)
-                pool.append(stmt)
+                stmt = self._history_statement(gen)
+                if stmt is not None:
+                    pool.append(stmt)
             dbs = [g.gen_db(rng, 0.05) for _ in range(2)] + [gen_db_nonnull(rng) for _ in range(2)]
             ops = []
             for _ in range(rng.randint(2, 5)):
@@ -517,6 +561,70 @@ class C06(fw.Check):
             out.append((dbs, ops))
         return out
 
+    def _history_statement(self, gen):
+        stmt = gen.statement(1)
+        if 'sqlite-nested-compound' in g.engine_limits(stmt) or not lazy_ok(stmt):
+            return None
+        if stmt[0] == 'query' and stmt[7] is not None:
+            # a LIMIT that cuts through ties is not a function of the content (and would be cached): never cut
+            stmt = stmt[:7] + (('rows', 100000, 0),)
+        return stmt
+
+    def _family_history(self, gen):
+        """one feed, unchanged storage: reads of 2..4 statements that differ in exactly one literal / operator / alias /
+        reference name / join or set kind / direction / LIMIT-OFFSET window, interleaved, repeated, across restarts"""
+        rng = self.rng
+        feed = rng.choice((0, 0, 1, 2, 2, 3))
+        dbs = [g.gen_db(rng, 0.05) for _ in range(2)] + [gen_db_nonnull(rng) for _ in range(2)]
+        members = None
+        for _ in range(20):
+            if rng.random() < 0.25:
+                members = g.limit_family(rng, nested=rng.random() < 0.4)
+            else:
+                stmt = self._history_statement(gen)
+                if stmt is None:
+                    continue
+                fams = g.family(stmt, rng)
+                if not fams:
+                    continue
+                sorts = sorted({f[0] for f in fams})
+                weights = [{'lit': 6, 'op': 3, 'query': 3, 'alias': 1, 'ref': 1, 'join': 2, 'set': 2, 'ord': 1}[x] for x in sorts]
+                sort = rng.choices(sorts, weights)[0]
+                members = rng.choice([f[1] for f in fams if f[0] == sort])
+            members = [m for m in members if family_member_ok(m, dbs[feed], FEED_KINDS[feed])]
+            if len(members) >= 2:
+                break
+            members = None
+        if members is None:
+            return None
+        rng.shuffle(members)
+        members = members[:rng.randint(2, 4)]
+        reads = list(members)
+        for _ in range(rng.randint(0, 2)):
+            reads.append(rng.choice(members))  # read again: must still be the statement's own rows
+        ops = [('read', feed, m) for m in reads]
+        if rng.random() < 0.5:
+            ops.insert(rng.randint(1, len(ops) - 1), ('restart',))
+        return (dbs, ops)
+
+    def _shrink_history(self, dbs, ops, sig, budget: int = 8) -> list:
+        """greedy: drop operations before the failing read as long as the real feeds still fail it the same way"""
+        i = 0
+        while i < len(ops) - 1 and budget > 0:
+            cand = ops[:i] + ops[i + 1:]
+            budget -= 1
+            try:
+                outs = run_history((dbs, cand), shared_zygote())
+                last = len(cand) - 1
+                same = any(s_ == sig and at == last for _, s_, at in judge_history(dbs, cand, outs, read_alone))
+            except Exception:  # pylint: disable=broad-except
+                same = False
+            if same:
+                ops = cand
+            else:
+                i += 1
+        return ops
+
     def _reader_level(self, histories) -> None:
         lines = []
         for dbs, ops in histories:
@@ -532,10 +640,13 @@ class C06(fw.Check):
         for (dbs, ops), outs, ans in zip(histories, results, answers):
             self.case(('hist', repr(ops), repr(dbs)), 'history:' + '-'.join(o[0][:2] + (str(o[1]) if len(o) > 1 else '') for o in ops), True,
                       sample={'history': [o[0] if o[0] != 'read' else f'read f{o[1]}' for o in ops]})
-            verdicts = judge_history(dbs, ops, outs)
+            verdicts = judge_history(dbs, ops, outs, read_alone)
             for what, sig, upto in verdicts:
                 if sig not in {v.signature for v in self.violations}:
-                    self.violate(what, history_witness(dbs, ops[:upto + 1]), sig)
+                    prefix = list(ops[:upto + 1])
+                    if sig not in self._known_signatures():
+                        prefix = self._shrink_history(dbs, prefix, sig)
+                    self.violate(what, history_witness(dbs, prefix), sig)
             try:
                 parsed = sexp.loads(ans)
                 m_run = [rel_from(x) for x in parsed[0][1:]]
@@ -555,7 +666,7 @@ class C06(fw.Check):
 
     def correspondence(self) -> None:
         self._parser_level(self._cases(self.n(600, 30000)))
-        self._reader_level(self._histories(self.n(28, 800)))
+        self._reader_level(self._histories(self.n(64, 1200)))
 
     # ---- search / replay ----------------------------------------------------------------------------------------------
     def search(self, reason: str) -> None:
@@ -597,7 +708,7 @@ class C06(fw.Check):
             dbs = [db_from_json(d) for d in w['dbs']]
             ops = [tuple(tup(x) if i != 2 or o[0] != 'mutate' else db_from_json(x) for i, x in enumerate(o)) for o in w['ops']]
             outs = run_history((dbs, ops), shared_zygote())
-            for what, sig, _ in judge_history(dbs, ops, outs):
+            for what, sig, _ in judge_history(dbs, ops, outs, read_alone):
                 return fw.Violation(what, w, sig)
             return None
         raise fw.MachineryError(f'unknown witness kind {w.get("kind")}')
@@ -815,6 +926,72 @@ def HISTORY_CORPUS():
     ]
 
 
+def family_member_ok(stmt, db, kind: str) -> bool:
+    """the statement is constructible, inside the documented semantics, denotes one result over `db` and can be run by the
+    feed's engine"""
+    if 'sqlite-nested-compound' in g.engine_limits(stmt) and kind == 'alchemy':
+        return False
+    try:
+        if not g.denote(stmt, db).deterministic:
+            return False
+        [k for _, k in g.out_columns(stmt)]
+        _state()['builder'].build(stmt)
+    except Exception:  # pylint: disable=broad-except
+        return False
+    return True
+
+
+def FAMILY_CORPUS():
+    """statements that differ in exactly one place, read one after the other through one feed over unchanged storage"""
+    import random
+
+    rng = random.Random(66)
+    P, D, U = g.PERSON, g.DEPT, g.UNIT
+    e = lambda s, n: ('elem', s, n)  # noqa: E731
+    i = lambda n: ('lit', ('int', n))  # noqa: E731
+    q = lambda src, sel=(), pre=None, grp=(), post=None, order=(), rows=None: ('query', src, tuple(sel), pre, tuple(grp), post, tuple(order), rows)  # noqa: E731
+    dbs = [g.gen_db(rng, 0.0), g.gen_db(rng, 0.0), gen_db_nonnull(rng), gen_db_nonnull(rng)]
+    age = lambda op, n: q(P, [e(P, 'id'), e(P, 'age')], ('expr', op, e(P, 'age'), i(n)))  # noqa: E731
+    name = lambda v: q(D, [e(D, 'id'), e(D, 'name')], ('expr', 'eq', e(D, 'name'), ('lit', ('str', v))))  # noqa: E731
+    page = lambda c, o, d='asc': q(U, [e(U, 'id'), e(U, 'name')], None, (), None, [('ord', e(U, 'id'), d)], ('rows', c, o))  # noqa: E731
+    plus = lambda n: q(P, [e(P, 'id'), ('alias', ('expr', 'add', e(P, 'id'), i(n)), 'x')])  # noqa: E731
+    b = ('ref', P, 'b')
+    boss = lambda kind: q(('join', P, b, kind, ('expr', 'eq', e(P, 'boss'), e(b, 'id'))), [e(P, 'id'), ('alias', e(b, 'id'), 'x')])  # noqa: E731
+    setk = lambda kind: ('set', q(D, [e(D, 'id'), e(D, 'name')]), q(U, [e(U, 'id'), e(U, 'name')]), kind)  # noqa: E731
+
+    def nested(first, second):
+        sub = ('ref', q(P, [('alias', e(P, 'id'), first), ('alias', e(P, 'boss'), second)]), 'sub')
+        return q(sub, [e(sub, 'x')])
+
+    def inner_page(c, o):
+        sub = ('ref', page(c, o), 'sub')
+        return q(sub, [e(sub, 'id'), e(sub, 'name')])
+
+    grouped = lambda op: q(P, [e(P, 'boss'), ('alias', ('expr', op, e(P, 'age')), 'n')], None, [e(P, 'boss')])  # noqa: E731
+    return [
+        (dbs, [('read', 0, age('gt', 1)), ('read', 0, age('gt', 3)), ('read', 0, age('gt', 1))]),  # one literal
+        (dbs, [('read', 0, age('gt', 3)), ('restart',), ('read', 0, age('gt', 5)), ('read', 0, age('gt', 3))]),  # across a restart
+        (dbs, [('read', 1, name('a')), ('read', 1, name('zz')), ('read', 1, name('b'))]),  # a string literal
+        # string literals that differ in case / a trailing blank only (the first one names an existing row)
+        (dbs, [('read', 1, name(dbs[1]['dept'][1][0][1])), ('read', 1, name(dbs[1]['dept'][1][0][1].upper())),
+               ('read', 1, name(dbs[1]['dept'][1][0][1] + ' ')), ('restart',), ('read', 1, name(dbs[1]['dept'][1][0][1].upper()))]),
+        (dbs, [('read', 0, plus(-1)), ('read', 0, plus(-2)), ('read', 0, age('lt', 0)), ('read', 0, age('lt', 2 ** 61 - 1))]),  # equal hashes
+        (dbs, [('read', 0, age('gt', 2)), ('read', 0, age('ge', 2)), ('read', 0, age('lt', 2)), ('read', 0, age('ne', 2))]),  # one operator
+        (dbs, [('read', 1, page(2, 0)), ('read', 1, page(2, 1)), ('read', 1, page(3, 1)), ('read', 1, page(100, 2)), ('read', 1, page(2, 0))]),  # window
+        (dbs, [('read', 0, page(2, 1)), ('restart',), ('read', 0, page(2, 2)), ('read', 0, page(2, 1, 'desc'))]),
+        (dbs, [('read', 0, inner_page(2, 0)), ('read', 0, inner_page(2, 1)), ('read', 0, inner_page(1, 1))]),  # window of a nested statement
+        (dbs, [('read', 0, plus(1)), ('read', 0, plus(2)), ('restart',), ('read', 0, plus(1))]),  # a literal in the projection
+        (dbs, [('read', 0, nested('x', 'y')), ('read', 0, nested('y', 'x'))]),  # aliases of a nested statement swapped
+        (dbs, [('read', 1, boss('inner')), ('read', 1, boss('left')), ('read', 1, boss('full'))]),  # join kind
+        (dbs, [('read', 0, setk('union')), ('read', 0, setk('intersection')), ('read', 0, setk('difference'))]),  # set kind
+        (dbs, [('read', 0, grouped('min')), ('read', 0, grouped('max')), ('read', 0, grouped('sum'))]),  # aggregate
+        # the same through file backed (monolite) feeds
+        (dbs, [('read', 2, age('gt', 1)), ('read', 2, age('gt', 3)), ('restart',), ('read', 2, age('gt', 5)), ('read', 2, age('gt', 1))]),
+        (dbs, [('read', 3, page(2, 0)), ('read', 3, page(2, 1)), ('read', 3, page(1, 2))]),
+        (dbs, [('read', 2, name('a')), ('read', 2, name('b'))]),
+    ]
+
+
 def history_witness(dbs, ops) -> dict:
     jdb = lambda d: {k: [v[0], [list(r) for r in v[1]]] for k, v in d.items()}  # noqa: E731
     return {'kind': 'history', 'dbs': [jdb(d) for d in dbs],
@@ -991,7 +1168,12 @@ def _mixed_explains(stmt, rows, versions) -> bool:
     return False
 
 
-def judge_history(dbs, ops, outs) -> list:
+def read_alone(feed, stmt, state):
+    """the same read as the only operation of a fresh process with a fresh home over the same storage contents"""
+    return run_history(([dict(d) for d in state], [('read', feed, stmt)]), shared_zygote())[0]
+
+
+def judge_history(dbs, ops, outs, alone=None) -> list:
     """oracle at reader level: every read returns what the statement denotes over the feed's own storage at read time;
     -> [(what, signature, index of the op)].  A deviation gets the signature of a known root cause only if that root
     cause explains the returned rows exactly."""
@@ -1049,6 +1231,20 @@ def judge_history(dbs, ops, outs) -> list:
             elif kind == 'lazy' and _mixed_explains(stmt, rows, lazy_versions):
                 sig, what = SIG_LAZY, (f'lazy feed {feed}: reads table contents registered earlier in the process (by another feed or '
                                        f'before its storage changed)')
+            else:
+                alien = [s for s in seen if s[1] != stmt and s[2] == bag]
+                if alien and alone is not None:
+                    # it is the history that matters iff the same read alone (fresh process, fresh home) is right
+                    try:
+                        single = alone(feed, stmt, state)
+                        if single[0] != 'rows' or exp.admits(canon_rows([tuple(r) for r in single[1]], kinds)) is not None:
+                            alien = []
+                    except Exception:  # pylint: disable=broad-except
+                        pass
+                if alien:
+                    sig = SIG_ALIEN
+                    what = (f'feed {feed} ({kind}): the read returns the rows an earlier read of a DIFFERENT statement returned '
+                            f'({sexp.dumps(g.short(alien[-1][1]))[:160]}) instead of its own ({why})')
             verdicts.append((what, sig, idx))
         seen.append((feed, stmt, bag, version[feed]))
     return verdicts
